@@ -1,5 +1,5 @@
 (* C08  The pool reuses only healthy connections and keeps its idle set within bounds.  Statements only. *)
-From LV Require Import Base.Bytes Model.Pool Proofs.PoolProofs.
+From LV Require Import Base.Bytes Base.Res Model.Response Model.ServerInfo Model.Client Proofs.ClientProofs Model.Pool Proofs.PoolProofs.
 Local Open Scope nat_scope.
 
 (* the complete life cycle of a connection: no event changes a status except along these edges.  In
@@ -72,9 +72,21 @@ Example C08_example :
   end.
 Proof. cbn. repeat split. Qed.
 
+(* the liveness probe itself (test_connected: pool check-out and test_connection()): for every state and peer script, a
+   probe that does not succeed - negative reply, malformed reply, end of stream, timeout - leaves the connection broken
+   and shut (after the repair F45; the pool's recycle step then closes it: C08_return_rule), so "a connection on which
+   any command failed" covers the NOOP of test_connection() too *)
+Theorem C08_failed_probe_closes : forall s : cst,
+  fst (test_connected s) = false -> shut (snd (test_connected s)) = true /\ panic (snd (test_connected s)) = true.
+Proof.
+  intros s. unfold test_connected. destruct (command NOOP s) as [[r|e|] s1]; cbn [fst snd]; try discriminate; intros _;
+    destruct (abort_units s1) as (A & B & _); auto.
+Qed.
+
 Print Assumptions C08_life_cycle.
 Print Assumptions C08_broken_never_reused.
 Print Assumptions C08_failed_send_marks.
 Print Assumptions C08_idle_bound.
 Print Assumptions C08_return_rule.
 Print Assumptions C08_maintenance.
+Print Assumptions C08_failed_probe_closes.
